@@ -85,6 +85,7 @@ pub(super) mod schema {
 pub mod verif {
     pub use super::schema::webrtc::{message::Flag as SchemaFlag, Message as SchemaMessage};
     pub use super::util::{extract_framed_message, WebRtcMessage, MAX_FRAME_SIZE};
+    pub use super::opening::verif_noise_prologue;
 }
 
 /// Logging target for the file.
